@@ -193,29 +193,7 @@ func runC04(c *Ctx) {
 	c.c04Atomic(funcs, ls, lock, setVar, guarded)
 
 	// ---- R3
-	n3 := 0
-	for _, fn := range funcs {
-		funcInstrs(fn, func(in ssa.Instruction) {
-			what := ""
-			if _, ok := in.(*ssa.Go); ok {
-				what = "go"
-			} else if _, ok := isWGMethod(in, "Wait"); ok {
-				what = "Wait"
-			}
-			for _, hc := range c.HandlerCalls() {
-				if hc.Site == in {
-					what = "handler call"
-				}
-			}
-			if what == "" {
-				return
-			}
-			n3++
-			held := ls.Held(in, lock)
-			r.Add("R3", "unlocked:"+c.FuncKey(fn)+":"+what, c.InstrPos(in), c.FuncKey(fn), what+" runs without the handler-set lock", held == 0, fmt.Sprintf("lockset=%s", ls.At[in]))
-		})
-	}
-	r.Floor("R3", "handler calls / go / Wait sites checked", n3, 6)
+	c.noLockAcrossHandlers("R3", funcs, ls, lock)
 	snap := c.snapshotRule("R3", ls, lock)
 
 	// ---- R4
@@ -375,6 +353,8 @@ func runC15(c *Ctx) {
 	r, a := c.R, c.A
 	r.Rule("R1", "at every handler-invocation site the line argument is a forwarded parameter of a Handle wrapper, or the single-use result of a (*Line).Copy call evaluated once per invocation")
 	r.Rule("R2", "(*Line).Copy starts from a whole-struct copy and, for every reference-typed field of Line (enumerated from go/types; time.Time exempt), stores a fresh allocation filled element-wise from the source on every path where the source field may be non-nil")
+	r.Rule("R3", "the parsed line the copies are taken from is never reused: every value sent on the inbound queue is freshly allocated for that read by the parser, together with its argument slice and tag map (the detached background dispatch copies it later, while the receive goroutine is already parsing the next line)")
+	c.freshParsedLineRule("R3")
 	copyFn := c.Func(c.Client, "(*Line).Copy")
 	r.Anchor("R1", "(*Line).Copy", copyFn != nil)
 	if copyFn == nil {
@@ -811,4 +791,61 @@ func (c *Ctx) isHSetStringMap(fv *types.Var, base ssa.Value) bool {
 	}
 	n, ok := t.(*types.Named)
 	return ok && n.Obj().Pkg() == c.Client.Pkg && (n.Obj().Name() == "hSet" || n.Obj().Name() == "hList")
+}
+
+// noLockAcrossHandlers: no handler invocation, go statement or WaitGroup.Wait
+// executes while the handler-set lock is held.
+func (c *Ctx) noLockAcrossHandlers(rule string, funcs []*ssa.Function, ls *Locksets, lock string) {
+	r := c.R
+	n3 := 0
+	for _, fn := range funcs {
+		funcInstrs(fn, func(in ssa.Instruction) {
+			what := ""
+			if _, ok := in.(*ssa.Go); ok {
+				what = "go"
+			} else if _, ok := isWGMethod(in, "Wait"); ok {
+				what = "Wait"
+			}
+			for _, hc := range c.HandlerCalls() {
+				if hc.Site == in {
+					what = "handler call"
+				}
+			}
+			if what == "" {
+				return
+			}
+			n3++
+			held := ls.Held(in, lock)
+			r.Add(rule, "unlocked:"+c.FuncKey(fn)+":"+what, c.InstrPos(in), c.FuncKey(fn), what+" runs without the handler-set lock", held == 0, fmt.Sprintf("lockset=%s", ls.At[in]))
+		})
+	}
+	r.Floor(rule, "handler calls / go / Wait sites checked", n3, 6)
+}
+
+// freshParsedLineRule: values sent on the inbound queue are deep-fresh.
+func (c *Ctx) freshParsedLineRule(rule string) {
+	r, a := c.R, c.A
+	n := 0
+	for _, fn := range c.clientFuncs() {
+		for _, op := range ChanOps(fn) {
+			if op.Kind != "send" || !c.ChanMayBe(op.Chan, a.In) {
+				continue
+			}
+			var v ssa.Value
+			if s, ok := op.In.(*ssa.Send); ok {
+				v = s.X
+			} else if op.Sel != nil {
+				v = op.Sel.States[op.State].Send
+			}
+			n++
+			fc := c.newFresh()
+			ok := fc.deepFresh(v, 0)
+			why := "sent line and everything reachable from it is allocated for this read"
+			if !ok {
+				why = "sent line is not freshly allocated for this read: " + fc.why
+			}
+			r.Add(rule, "fresh-line:"+c.FuncKey(fn), c.InstrPos(op.In), c.FuncKey(fn), "the line handed to the event loop is a new object", ok, why)
+		}
+	}
+	r.Floor(rule, "sends on the inbound queue", n, 1)
 }
